@@ -393,6 +393,8 @@ PROPS["C17"] = {
          "quick": {"checks": 500, "shards": 4}, "thorough": {"checks": 5000, "shards": 16}},
         {"name": "concurrent-first", "mode": "plain", "test": "TestC17Concurrent",
          "quick": {"checks": 2500, "shards": 4}, "thorough": {"checks": 40000, "shards": 8}},
+        {"name": "concurrent-create", "mode": "plain", "test": "TestC17Create",
+         "quick": {"checks": 400, "shards": 4}, "thorough": {"checks": 20000, "shards": 8}},
     ],
 }
 
@@ -634,3 +636,4 @@ PROPS["C15"]["rule"] += " Schedules in the sys.System part are either recurring 
 PROPS["C13"]["rule"] += " Half of the cases run with the real in-process cron behind the state hooks (never started: parsing and book-keeping only), and a quarter of the rule/fact cases carry a generated schedule (cron expressions built from a hostile field alphabet, one-shot forms). The canary includes a fact that depends (deleteWith) on another canary fact."
 PROPS["C13"]["rule"] += " System cases run with and without CheckExistence. Accepted facts and rules — those with generated ids and property facts (`!`-keys) included — are removed again by the id the call returned (removal must succeed) before the canary transcript is compared with a fresh twin; only access keys and the location's off switch are exempt."
 PROPS["C07"]["rule"] += " Half of the histories run with the cron state hooks installed (as sys.System does), and histories may clear the location, which must succeed whatever has expired in it and leave storage empty."
+PROPS["C17"]["rule"] += " The histories also use enable, remRule, getRule, searchRules and the location-stats requests. A third part (concurrent-create) runs with existence checking: 2-8 clients issue 1-4 first requests each for a location that does not exist yet - checked requests (GetSize, which must fail until the location is created), unchecked loads (what an inherited search does for a parent) and CreateLocation - with spin delays, schedule noise and optionally 200/900 pre-stored records to make loads slow; once a CreateLocation has returned without error, that client's AddFact and the read of that fact must succeed, and after the burst the location exists and every acknowledged write is visible; non-trivial = a checked request failed or was in flight when a CreateLocation started."
